@@ -231,3 +231,30 @@ func VerifC13HistorySmall()   { c13History(Compact, 1, 200) }
 // exactly once and intact (every schedule with at most 2 preemptions; see c14.go).
 func VerifC13SharedCounter() { c14Prefix = "c13.concurrent"; c14Run(Binary, 4, 2) }
 func VerifC13SharedBucket()  { c14Prefix = "c13.concurrent"; c14Run(Binary, 3, 2) }
+
+// VerifC13WideTags: a metric with more tags than the pooled tag slices were sized for (11), then
+// further tag sets; every metric must still be sent with exactly its own tags.
+func VerifC13WideTags() {
+	t0 := now()
+	r, addr := vNew(Compact, 16, 4000, nil)
+	wide := map[string]string{}
+	for i := 0; i < 11; i++ {
+		wide[string(rune('a'+i))+"k"] = string(rune('a'+i)) + "v"
+	}
+	x, y, z := verifrt.Int64("v"), verifrt.Int64("v"), verifrt.Int64("v")
+	verifrt.Assume(verifrt.And(verifrt.And(x >= 0, x < 64), verifrt.And(verifrt.And(y >= 0, y < 64), verifrt.And(z >= 0, z < 64))))
+	c1 := r.AllocateCounter("wide", wide)
+	c2 := r.AllocateCounter("narrow", map[string]string{"zone": "z1"})
+	c3 := r.AllocateCounter("other", map[string]string{"p": "q", "r": "s"})
+	c1.ReportCount(x)
+	c2.ReportCount(y)
+	c3.ReportCount(z)
+	t1 := now()
+	verifrt.Assert("c13.wide.close-ok", r.Close() == nil)
+	vCheckDelivery("c13.wide", addr, Compact, []*vExpect{
+		{name: "wide", kind: m3thrift.MetricType_COUNTER, count: x, tags: wide, t1: t1},
+		{name: "narrow", kind: m3thrift.MetricType_COUNTER, count: y, tags: map[string]string{"zone": "z1"}, t1: t1},
+		{name: "other", kind: m3thrift.MetricType_COUNTER, count: z, tags: map[string]string{"p": "q", "r": "s"}, t1: t1},
+	}, t0)
+	verifrt.Reach("c13-wide")
+}
